@@ -108,8 +108,15 @@ class Program:
 
     def _load(self, name, path, src):
         m = ModuleInfo(name, path, src)
+        m.unstable = set()
         for node in m.tree.body:
             self._top(m, node)
+        # a module-level name that some function rebinds through `global` is not a constant either
+        for n in ast.walk(m.tree):
+            if isinstance(n, ast.Global):
+                m.unstable |= set(n.names)
+        for nm in m.unstable:
+            m.consts.pop(nm, None)
         return m
 
     def _top(self, m, node):
@@ -138,6 +145,18 @@ class Program:
             m.classes[c.name] = c
         elif isinstance(node, ast.Assign) and len(node.targets) == 1 and isinstance(node.targets[0], ast.Name):
             m.consts[node.targets[0].id] = node.value
+        elif isinstance(node, ast.AugAssign) and isinstance(node.target, ast.Name):
+            # X += (...) at module level: the constant is the combined expression (fail closed if X is not a known constant)
+            nm = node.target.id
+            if nm in m.consts:
+                m.consts[nm] = ast.copy_location(ast.BinOp(left=m.consts[nm], op=node.op, right=node.value), node)
+            else:
+                m.unstable.add(nm)
+        elif isinstance(node, (ast.If, ast.For, ast.While, ast.With)):
+            # names (re)bound conditionally or in a loop at module level are not constants
+            for n in ast.walk(node):
+                if isinstance(n, ast.Name) and isinstance(n.ctx, ast.Store):
+                    m.unstable.add(n.id)
         elif isinstance(node, ast.ImportFrom):
             for a in node.names:
                 mod = node.module or ""
